@@ -426,8 +426,7 @@ def run(ctx):
     if ctx.shard == 0:
         need += ['interest-needs-validation', 'interest-plain', 'validated-then-delivered', 'dropped']
     for k in need:
-        if not ctx.events.get(k):
-            ctx.inconclusive(f'monitor {k} observed nothing')
+        ctx.need_event(k)
     if ctx.events.get('observation:accepted-but-not-delivered'):
         ctx.extra['note'] = 'accepted-but-not-delivered is an observation (the statement only has the only-if direction)'
     ctx.assumptions = ['a validator finishing exactly at the deadline may go either way',
